@@ -489,6 +489,13 @@ fn global_pool<T: Clone + Send + Sync>(
     out_shape.resize(input.ndim(), 1);
 
     let n_elem = input.shape().iter().skip(2).product();
+    if n_elem == 0 {
+        // There are no lanes to reduce, so the output would be left
+        // uninitialized.
+        return Err(OpError::InvalidValue(
+            "Spatial dimensions of input must be non-empty",
+        ));
+    }
     let input = input.reshaped_in(pool, [batch, chan, n_elem]);
 
     let n_out = batch * chan;
